@@ -100,7 +100,18 @@ def chk_twins():
 def chk_seed(L, pat):
     from btc_hd_wallet.bip32 import PrvKeyNode
     from btc_hd_wallet.base_wallet import BaseWallet
-    seed = {"00": b"\x00" * L, "ff": b"\xff" * L, "inc": bytes((i * 7 + 1) % 256 for i in range(L))}[pat]
+    if pat == "lzmaster":          # a seed whose master key has a leading zero byte (searched with the reference)
+        i = 0
+        while True:
+            seed = i.to_bytes(4, "big") * 16
+            try:
+                if hd.master(seed).k < 2**248:
+                    break
+            except ValueError:
+                pass
+            i += 1
+    else:
+        seed = {"00": b"\x00" * L, "ff": b"\xff" * L, "inc": bytes((i * 7 + 1) % 256 for i in range(L))}[pat]
     try:
         rm = hd.master(seed)
     except ValueError:
@@ -209,7 +220,8 @@ def run(ctx):
     ps = range(len(P_ALPHA))
     ctx.product("mnemonic-x-passphrase", [{"k": "text", "m": m, "p": p} for m in ms for p in ps], execute)
     ctx.product("normalisation-twins", [{"k": "twins"}], execute, parallel=False)
-    ctx.product("seed-lengths", [{"k": "seed", "L": L, "pat": pat} for L in range(0, 81) for pat in ("00", "ff", "inc")], execute)
+    ctx.product("seed-lengths", [{"k": "seed", "L": L, "pat": pat} for L in range(0, 81) for pat in ("00", "ff", "inc")] +
+                [{"k": "seed", "L": 64, "pat": "lzmaster"}], execute)
     ents = []
     for size in (16, 20, 24, 28, 32):
         ents += [b"\x00" * size, b"\xff" * size, bytes(r.randrange(256) for _ in range(size)), b"\x00" * 4 + bytes(r.randrange(256) for _ in range(size - 4))]
